@@ -313,7 +313,7 @@ func functionRows(t ev.TB, test string) []*row {
 type callPayload struct {
 	Row     string `json:"row"`
 	Script  bool   `json:"script"`
-	Args    []*val `json:"args"` // for text.regexp.* rows args[0] is the pattern the object is compiled from
+	Args    []*val `json:"args"`  // for text.regexp.* rows args[0] is the pattern the object is compiled from
 	Limit   int    `json:"limit"` // tengo.MaxStringLen during the call; -1 = default
 	Finding string `json:"finding,omitempty"`
 	Echo    string `json:"echo,omitempty"`
